@@ -6,7 +6,7 @@
 (* An instance is [m (Compose model), calG (per feature: set of calibrator output values),         *)
 (* midG (per middle layer: set of weight values), combG, ocG, xs (per feature: set of points)].    *)
 EXTENDS Compose
-CONSTANTS Instances, RequireSufficient
+CONSTANTS Instances, RequireSufficient, AllowZeroNorm
 VARIABLES inst, Wc, W
 vars == <<inst, Wc, W>>
 
@@ -43,7 +43,12 @@ PickRest == Wc # None /\ W = None /\ W' \in RestSpace(inst, Wc) /\ UNCHANGED <<i
 Next == PickCal \/ PickRest
 Spec == Init /\ [][Next]_vars
 
-Premise == (RequireSufficient => Sufficient(inst.m)) /\ LayersOK(inst.m, W, Zero)
+\* C06 tolerates numerically zero weights in a normalised linear layer; the composition needs unit norm (with zero
+\* weights a "weighted average" is the constant 0): AllowZeroNorm = TRUE is the design-level form of the known finding
+L1One(c, k) == c.norm = 1 => PO!L1(k) = One
+NormsOK == AllowZeroNorm \/ (/\ \A i \in 1..Len(inst.m.mids) : inst.m.mids[i].kind = "linear" => L1One(inst.m.mids[i], W.mid[i])
+                             /\ (inst.m.comb.kind = "lin" => L1One(inst.m.comb, W.comb)))
+Premise == (RequireSufficient => Sufficient(inst.m)) /\ LayersOK(inst.m, W, Zero) /\ NormsOK
 Out(p) == ModelFn(inst.m, W, p)
 \* every output, for every point of the grid (in range, out of range, missing), is within the configured bounds
 InvBounded == (W # None /\ Premise) => \A p \in Points(inst) : BoundedOut(inst.m, Out(p), Zero)
